@@ -5,6 +5,7 @@ passes without), runs ./run.sh PROP quick against /repo with the change applied 
 and stores patch, demo and meta.json under /verif/seeded/PROP-K/."""
 import json, os, shutil, subprocess, sys, re, glob
 prop, wt, k, pkg, summary, needs = sys.argv[1:7]
+outk = sys.argv[7] if len(sys.argv) > 7 else k
 env = dict(os.environ, GOFLAGS='-mod=mod', GOPROXY='off', GOSUMDB='off', GOTOOLCHAIN='local')
 def sh(cmd, cwd):
     p = subprocess.run(cmd, shell=True, cwd=cwd, env=env, capture_output=True, text=True)
@@ -32,7 +33,7 @@ rc_chk, out_chk = sh(f'./run.sh {prop} quick', '/verif')
 sh('git checkout -q -- .', '/repo')
 rc, st = sh('git status --short', '/repo'); assert st.strip() == '', st
 keys = re.findall(r'\[([A-Z-]+:[^\]]+)\]', out_chk)
-d = f'/verif/seeded/{prop}-{k}'
+d = f'/verif/seeded/{prop}-{outk}'
 os.makedirs(d, exist_ok=True)
 shutil.copy(f'{S}/{k}.diff', f'{d}/patch.diff')
 shutil.copy(demo, f'{d}/demo_test.go')
@@ -51,7 +52,7 @@ meta = {
  'check': {'command': f'./run.sh {prop} quick', 'exit_code': rc_chk, 'detected': detected, 'finding_keys': keys[:8]},
 }
 json.dump(meta, open(f'{d}/meta.json', 'w'), indent=1)
-print(f"{prop}-{k}: head_demo_ok={rc_head==0} suite_ok={rc_build==0} demo_fails={rc_mut!=0} check_exit={rc_chk} detected={detected}")
+print(f"{prop}-{outk}: head_demo_ok={rc_head==0} suite_ok={rc_build==0} demo_fails={rc_mut!=0} check_exit={rc_chk} detected={detected}")
 for kk in keys[:6]: print('    ', kk)
 if not detected:
     print(out_chk[-600:])
